@@ -67,6 +67,8 @@ def check(run):
     run.floor("R13.2", 2, "encoder rotate instantiations")
 
     # ---------------- R13.3 / R13.4 / R13.5 writer overrides
+    from . import C14
+    C14.check_no_partial_reset(run, "R13.3")      # the re-init of "open (re-init)" is a full one
     ovs = writers.overrides_of(facts, "rotate_output")
     ovs = [f for f in ovs if f.get("cls") != BASE]
     if len(ovs) < 5:
